@@ -12,7 +12,7 @@ import common
 from common import xr, xvec, from_xr, from_xvec, num_close, tokens_close
 
 ID = "C15"
-TARGETS = ["Proofs.C15", "Proofs.C15Multi", "Proofs.C15Axis", "Proofs.GenEq.Agg"]
+TARGETS = ["Proofs.C15", "Proofs.C15Multi", "Proofs.C15Axis", "Proofs.GenEq.Agg", "Proofs.C15Ens"]
 GEN_PREFIXES = ["agg."]
 # Proofs.GenEq.Agg only ties the hand-written Agg.apply to the source (the C15 theorems are about Agg.apply, which is
 # also tied by the agg.vec correspondence): tie-only obligations, DESIGN 8.7
@@ -28,6 +28,8 @@ THEOREMS = {
         "C15_axis", "C15_axis_rank", "C15_axis_shape",
         "C15_window", "C15_window_series", "C15_window_long", "C15_window_same_for_all_fields",
         "C15_window_arr", "C15_fields_partial", "C15_applied_before_cut"]],
+    "Proofs.C15Ens": ["VerifModel.C15Ens." + t for t in [
+        "C15_ens_cell", "C15_ens_fields_partial", "C15_ens_fields_modelled"]],
     "Proofs.C15Multi": ["VerifModel.C15." + t for t in [
         "C15_multi_cell", "C15_multi_field", "C15_multi_wf", "C15_multi_input", "C15_multi_borrowed_obs"]],
     "Proofs.C15Axis": ["VerifModel.C15." + t for t in [
@@ -64,9 +66,11 @@ ASSUMPTIONS = [
     "data values are finite or NaN (verif treats +-inf as missing before scoring)",
     "window length h > 0 for the check (the driver rejects -T <= 0); C15_window holds for every coordinate order "
     "(text inputs and Data deliver ascending coordinates, NetCDF inputs may not)",
-    "quantile-from-ensemble fields under -T (repaired by 3ab2f86: the quantile is now taken from the pre-aggregated members) "
-    "are judged by the oracle on every agg.data op; the estimator itself (np.quantile normal_unbiased) belongs to C08 and is not "
-    "in Model/Preagg.dataScore (reply UNMODELLED)",
+    "quantile-from-ensemble and threshold-from-ensemble fields under -T (3ab2f86: taken from the pre-aggregated members; a stored "
+    "column is not read when -T is on) are in the model (Preagg.dataScore = Prob.ensQuantile / probLE on the pre-aggregated "
+    "members, theorem C15_ens_fields_partial; several inputs: PreaggHist.tInput, stream data.histT.* of C18) and are judged by the "
+    "oracle on every agg.data op; the cell-wise reading of the 4-D pre-aggregation against Spec.Stats.window is not a theorem "
+    "(C15_window / C15_multi_field cover vectors and 3-D fields)",
     "PIT randomisation (# x0 / # x1 of the variable) before the pre-aggregation is not modelled: the in-memory and NetCDF inputs "
     "of agg.data2 carry no x0 / x1",
     "agg.data2: a window containing a missing value has several acceptable readings (NaN, or the statistic of the valid values); "
